@@ -2807,15 +2807,14 @@ def cmpxchg(info, a, b):
     e+=update_flag_arith(res)
     e+=update_flag_sub(c, a, res)
     e+=update_flag_af(res)
+    if a == c:
+        # the destination is the accumulator itself: the comparison
+        # succeeds, a single write
+        e.append(ExprAff(a, b))
+        return e
     # on failure the accumulator is loaded with the destination
-    e.append(ExprAff(c, ExprCond(cond,
-                                 a,
-                                 c)
-                     ))
-    e.append(ExprAff(a, ExprCond(cond,
-                                 a,
-                                 b)
-                     ))
+    # (accumulator and destination may be al and ah: one assignment)
+    e += aff_pair(c, ExprCond(cond, a, c), a, ExprCond(cond, a, b))
     return e
 
 def cmpxchg8b(info, a):
